@@ -423,3 +423,84 @@ func (g *Gen) IndexSpec() Op {
 	}
 	return o
 }
+
+// SparseUnique is a directed history around a NON-partial unique index U (single or compound) and a plain index P over
+// another field that is created after U: many documents lack a key of U (a unique index files them under the nil key,
+// so the second such document must be rejected – without a trace), updates $unset / nil / set the keys of U, and every
+// mutation is followed by finds through P (equality and range on P's key) and by a full scan. Added after the seeded
+// change c11e (the pre-check of Store/Swap skipped documents lacking a unique key, so the rejected write half-happened:
+// stored, but missing from every index created after U).
+func (g *Gen) SparseUnique() (ops []Op, unique Op, plain Op) {
+	r := g.R
+	ukeys := lib.Pick(r, [][]string{{"a"}, {"b"}, {"a", "b"}, {"a", "n.x"}, {"b", "a"}})
+	var rest []string
+	for _, f := range []string{"a", "b", "n.x"} {
+		in := false
+		for _, k := range ukeys {
+			in = in || k == f
+		}
+		if !in {
+			rest = append(rest, f)
+		}
+	}
+	pf := lib.Pick(r, rest)
+	unique = Op{Kind: "idx", Keys: ukeys, Unique: true}
+	plain = Op{Kind: "idx", Keys: []string{pf}}
+	if r.Chance(1, 4) {
+		plain.Keys = []string{pf, ukeys[0]}
+	}
+	iv := func(n int) types.Value { return types.NewInt(n) }
+	doc := func(id int) types.Map {
+		ps := []types.Value{S("id"), iv(id), S(pf), iv(r.Range(0, 2))}
+		for _, k := range ukeys {
+			switch r.Weighted([]int{5, 4, 1}) {
+			case 0: // lacks the key
+			case 1:
+				ps = append(ps, S(k), iv(r.Range(0, 4)))
+			default:
+				ps = append(ps, S(k), nil)
+			}
+		}
+		return types.NewMap(ps...)
+	}
+	probe := func() {
+		v := iv(r.Range(0, 2))
+		ops = append(ops, Op{Kind: "find", Filter: types.NewMap(S(pf), v)})
+		if r.Bool() {
+			ops = append(ops, Op{Kind: "find", Filter: types.NewMap(S(pf), types.NewMap(S(lib.Pick(r, []string{"$gte", "$lte"})), v))})
+		}
+		ops = append(ops, Op{Kind: "find"})
+	}
+	n := r.Range(3, 6)
+	for id := 1; id <= n; id++ {
+		ops = append(ops, Op{Kind: "ins", Docs: []types.Map{doc(id)}})
+		g.hit("sparse-unique:insert")
+		probe()
+	}
+	for i := 0; i < r.Range(4, 10); i++ {
+		byID := types.NewMap(S("id"), iv(r.Range(1, n+1)))
+		k := lib.Pick(r, ukeys)
+		switch r.Weighted([]int{5, 2, 3, 2, 1, 2}) {
+		case 0:
+			ops = append(ops, Op{Kind: "upd", Filter: byID, Update: types.NewMap(S("$unset"), types.NewMap(S(k), types.True))})
+			g.hit("sparse-unique:$unset-unique-key")
+		case 1:
+			ops = append(ops, Op{Kind: "upd", Filter: byID, Update: types.NewMap(S("$set"), types.NewMap(S(k), nil))})
+			g.hit("sparse-unique:set-unique-key-nil")
+		case 2:
+			ops = append(ops, Op{Kind: "upd", Filter: byID, Update: types.NewMap(S("$set"), types.NewMap(S(k), iv(r.Range(0, 4))))})
+			g.hit("sparse-unique:set-unique-key")
+		case 3:
+			ops = append(ops, Op{Kind: "upd", Filter: byID, Update: types.NewMap(S("$set"), types.NewMap(S(pf), iv(r.Range(0, 2))))})
+			g.hit("sparse-unique:move-plain-key")
+		case 4:
+			ops = append(ops, Op{Kind: "del", Filter: byID})
+			g.hit("sparse-unique:delete")
+		default:
+			ops = append(ops, Op{Kind: "ins", Docs: []types.Map{doc(r.Range(1, n+2))}})
+			g.hit("sparse-unique:insert")
+		}
+		probe()
+	}
+	return ops, unique, plain
+}
